@@ -27,12 +27,14 @@ def progOf (X : Ext Tree) (f : Name × Name) : Prog :=
 
 def progsOf (X : Ext Tree) (files : List (Name × Name)) : List Prog := files.map (progOf X)
 
-/-- The exception classes assumed of `ast.parse`: instances of `SyntaxError`/`ValueError`, whose class
+/-- HYPOTHESIS on an external (not established by any theorem; the harness looks for counter-examples with an
+implementation-only stream). The exception classes assumed of `ast.parse`: instances of `SyntaxError`/`ValueError`, whose class
 name is an identifier (no colon). -/
 def ParseCaught (X : Ext Tree) : Prop :=
   ∀ src e, X.parse src = .error e → e.caught = true ∧ cColon ∉ e.name
 
-/-- The feature search never raises (finding 17 is an input where it does). -/
+/-- HYPOTHESIS on an external: the feature search never raises (DESIGN finding 17 was an input where it did).
+Together with `ParseCaught` this assumes, for the two externals that matter, what the conclusion needs. -/
 def FeaturesTotal (X : Ext Tree) : Prop := ∀ src t, ∃ ls, X.features src t = .ok ls
 
 /-- Every file has its record; invalid and empty files carry the single expected label, and their
